@@ -40,7 +40,10 @@ class Ctx:
             # the status events it sees must not let a later bring-up skip the command or the event
             self.ezsp.add_callback(self.app.ezsp_callback_handler)
         self.cls = type(self.ezsp._protocol)
-        self.base_callbacks = len(self.ezsp._callbacks)
+        self.base_callbacks = len(self.ezsp._callbacks) if hasattr(getattr(self.ezsp, "_callbacks", None), "__len__") else 0
+        from mc import leaks as lk
+
+        self.futures_before = lk.count_futures(self.ezsp)
         self.answered = 0xF0             # sequence number of the last command the NCP answered (what callbacks carry)
 
     # -- frames ---------------------------------------------------------------------
@@ -477,14 +480,23 @@ def outcome(task):
 
 def leaks(ctx):
     out = []
-    n = len(ctx.ezsp._callbacks)
-    if n != ctx.base_callbacks:
-        out.append(f"{n} callbacks are registered, {ctx.base_callbacks} before the operation")
+    cbs = getattr(ctx.ezsp, "_callbacks", None)
+    if cbs is not None and hasattr(cbs, "__len__"):
+        n = len(cbs)
+        if n != ctx.base_callbacks:
+            out.append(f"{n} callbacks are registered, {ctx.base_callbacks} before the operation")
     lst = getattr(ctx.ezsp, "_stack_status_listeners", None)
-    if lst is not None:
+    if lst is not None and hasattr(lst, "items"):
         stale = {str(k): len(v) for k, v in lst.items() if len(v)}
         if stale:
             out.append(f"stack-status listeners remain: {stale}")
+    if not out:
+        # whatever shape the book-keeping has: a listener waiting for a status is (or holds) a future
+        from mc import leaks as lk
+
+        extra = lk.count_futures(ctx.ezsp) - ctx.futures_before
+        if extra > 0:
+            out.append(f"{extra} future(s) of the finished operation are still referenced from the EZSP object's book-keeping")
     return "; ".join(out)
 
 
